@@ -66,7 +66,11 @@ ASSUMPTIONS = [
     "not demanded: order of list-valued attributes that the code compares as sets; None vs the empty container as a "
     "constructor-visible difference (several classes document None as 'no ids')",
 ]
-TRUSTED = ["harness/c12_specs.py: JSON description -> object builders and the two getter-based encoders (untyped for ==/hash "
+EXTRA_MODULES = ["CRProps.T12"]      # translator tie: Gen.SrcC12 (extracted from the __eq__/__hash__ sources every run) = hand model
+TRUSTED = ["harness/translate/src_c12.py: structural extraction of the compared / hashed attributes and their syntactic forms from the "
+           "ast of every __eq__ / __hash__ (symbolic evaluation: substitution of locals, unrolled loops over literal lists, inlined "
+           "base-class calls); lean/CRModel/PyExtC12.lean: what each extracted idiom denotes; getters are read as the fields they return (checked by tie_getters where both names occur)",
+           "harness/c12_specs.py: JSON description -> object builders and the two getter-based encoders (untyped for ==/hash "
            "agreement, typed for hashability) that feed the model"]
 REQUIRED_BUCKETS = ["cls:" + c for c in S.CLASSES] + ["pair:self", "pair:deepcopy", "pair:twin", "pair:permuted", "pair:perturbed",
                                                         "defaults-only", "probe:sub-threshold", "probe:none-vs-empty",
